@@ -21,6 +21,7 @@ package main
 // non-nil error is entered into the map under its partition.
 //@ spec func c19Covered(parts []metadata.PartitionID, t string, p int32) bool = exists k int :: 0 <= k && k < len(parts) && parts[k].Topic == t && parts[k].Partition == p
 //@ func (h *handler) acquirePartitionLeases
+//@   solver_budget 40
 //@   requires h.leaseManager != nil ==> h.leaseManager.lm != nil
 //@   ensures [C19.no_error_entry_means_held] h.leaseManager != nil ==> (forall ti int, pi int :: 0 <= ti && ti < len(req.Topics) && 0 <= pi && pi < len(req.Topics[ti].Partitions) && !has(result, mkstruct("metadata.PartitionID", req.Topics[ti].Topic, req.Topics[ti].Partitions[pi].Partition)) ==> c19Held(req.Topics[ti].Topic, req.Topics[ti].Partitions[pi].Partition))
 //@   loop 1 invariant -1 <= rangeindex__1 && rangeindex__1 < len(req.Topics)
